@@ -1,6 +1,7 @@
 import LP.Props.C20
 import LP.Props.C20Heap
 import LP.Props.C20HeapOrder
+import LP.Props.C20HeapRemove
 import LP.Props.C20HSet
 import LP.Props.C20HSetProbe
 import LP.Props.C20HSetRemove
@@ -61,3 +62,5 @@ import LP.Props.C20HSetIntersect
 #print axioms LP.HSet.step_inter
 #print axioms LP.HSet.C20_hset_refines2
 #print axioms LP.HSet.C20_hset_observers2
+#print axioms LP.Heap.removeLoop_none_left
+#print axioms LP.Heap.C20_heap_remove_all
